@@ -11,11 +11,14 @@ import sx
 import pyxlib as P
 
 FIELD_TYPES = ["u8", "u16", "u32", "u64", "*const u8", "[u16; 2]", "unknown<1>", "unknown<2>", "unknown<3>",
-               "[u32; 0]", "unknown<0>", "bool", "[u8; 3]"]
+               "[u32; 0]", "unknown<0>", "bool", "[u8; 3]", "Z4"]
+# Z4: a zero-sized user type with alignment 4 (`#[align(4)] type Z4;`) -- a member without bytes that still has an alignment
 
 
 def type_info(t, ptr):
     """(size, align, is_array)"""
+    if t == "Z4":
+        return (0, 4, 0)
     if t.startswith("*"):
         return (ptr, ptr, 0)
     if t.startswith("unknown<"):
@@ -42,7 +45,8 @@ def text_of(d):
     for i, (t, addr) in enumerate(fields):
         name = "_" if t.startswith("unknown") and i % 2 == 0 else "f%d" % i
         body.append(("#[address(%d)] " % addr if addr is not None else "") + "%s: %s" % (name, t))
-    return out + "type T { %s }" % ", ".join(body)
+    pre = "#[align(4)] type Z4;\n" if any(t == "Z4" for t, _ in fields) else ""
+    return pre + out + "type T { %s }" % ", ".join(body)
 
 
 def spec_case(d):
@@ -132,11 +136,11 @@ def runner(pid, prop, tier, seed, scratch, replay=None):
         descs = [tuple(doc["desc"][:1]) + (tuple(tuple(x) for x in doc["desc"][1]),) + tuple(doc["desc"][2:])]
         exhaustive_bound = None
     else:
-        small_types = ["u8", "u16", "u32", "u64", "*const u8", "[u16; 2]", "unknown<1>", "unknown<3>", "[u32; 0]"]
+        small_types = ["u8", "u16", "u32", "u64", "*const u8", "[u16; 2]", "unknown<1>", "unknown<3>", "[u32; 0]", "Z4"]
         if tier == "quick":
             descs = list(enumerate_scope(1, FIELD_TYPES))
             # two fields over a reduced but complete grid
-            descs += list(enumerate_scope(2, ["u8", "u32", "u64", "*const u8", "unknown<3>"],
+            descs += list(enumerate_scope(2, ["u8", "u32", "u64", "*const u8", "unknown<3>", "Z4"],
                                           addrs=[None, 0, 1, 4, 8], sizes=[None, 8, 12, 16], aligns=[None, 1, 3, 4, 8]))
             exhaustive_bound = ("all descriptions with <= 1 field over %d field types, address in none|0..9, size in none|0..16, "
                                 "align in none|1,2,3,4,8,16, packed, ptr 4|8; plus all 2-field descriptions over a reduced grid" % len(FIELD_TYPES))
